@@ -24,6 +24,7 @@ class WSession:
             pass
         self.writers, self.backing, self.disc = [], [], []
         self.closed = {}
+        self.userfiles = []
         for i, k in enumerate(self.kinds):
             if k == "path":
                 path = os.path.join(self.dir, "sub%d" % i, "out%d.gcode" % i)
@@ -37,6 +38,13 @@ class WSession:
                 s = io.StringIO(newline="")
                 self.writers.append(FileWriter(s))
                 self.backing.append(s)
+            elif k in ("ufile_b", "ufile_t"):
+                # a real (buffered) file the user opened themselves and handed to a FileWriter; read back through a second handle
+                path = os.path.join(self.dir, "user%d.gcode" % i)
+                fh = open(path, "wb") if k == "ufile_b" else open(path, "w", newline="", encoding="utf-8")
+                self.userfiles.append(fh)
+                self.writers.append(FileWriter(fh))
+                self.backing.append(path)
             else:
                 chunks = []
                 self.writers.append(self._custom(BaseWriter, chunks, i))
@@ -66,7 +74,7 @@ class WSession:
         for i, (k, b) in enumerate(zip(self.kinds, self.backing)):
             if i in self.closed:
                 out.append(self.closed[i])
-            elif k == "path":
+            elif k in ("path", "ufile_b", "ufile_t"):
                 try:
                     with open(b, "rb") as fh:
                         out.append(list(fh.read()))
@@ -129,8 +137,13 @@ class WSession:
             self.g.teardown()
         except Exception:
             pass
+        for fh in self.userfiles:
+            try:
+                fh.close()
+            except Exception:
+                pass
         shutil.rmtree(self.dir, ignore_errors=True)
-        m = {"kinds": self.kinds, "eol": list(self.eol.encode())}
+        m = {"kinds": ["ufile" if k.startswith("ufile") else k for k in self.kinds], "eol": list(self.eol.encode())}
         if meta:
             m.update(meta)
         return {"meta": m, "ev": self.events}
